@@ -142,7 +142,14 @@ pub fn math_round(
     args: &[JsValue],
 ) -> Result<Guarded, JsError> {
     let n = number_arg(interp, args, 0)?;
-    Ok(Guarded::unguarded(JsValue::Number(prelude_math::round(n))))
+    // Ties go towards +Infinity: -2.5 rounds to -2 (and -0.5 to -0)
+    let floor = prelude_math::floor(n);
+    let rounded = if n.is_finite() && n - floor == 0.5 {
+        if floor == -1.0 { -0.0 } else { floor + 1.0 }
+    } else {
+        prelude_math::round(n)
+    };
+    Ok(Guarded::unguarded(JsValue::Number(rounded)))
 }
 
 pub fn math_trunc(
